@@ -79,10 +79,13 @@ def check_row(s, cfg, m, row, tag, call=None):
             return np.stack(rows)
 
     # finite differences are trusted only where two step sizes agree (ladder 2e-5, 5e-6, 1.25e-6)
+    last_fd = {}
+
     def lds(h):
         fd = fd_jacobians(f, x, dom, h_rel=h)
         if not all(np.all(np.isfinite(fd[k])) for k in ("Jc", "Jl", "Jr")):
             return None
+        last_fd["fd"] = fd
         return tuple(logabsdet(fd[k]) for k in ("Jc", "Jl", "Jr"))
 
     def agree(u, v):
@@ -115,6 +118,26 @@ def check_row(s, cfg, m, row, tag, call=None):
     else:
         info["kink"] = True
         cands = [v for v in (ld_l, ld_r) if np.isfinite(v)]
+        # several coordinates on kinks at once (2-deviation rows): every mix of one-sided columns is legitimate
+        fd = last_fd.get("fd")
+        if fd is not None:
+            Jl, Jr = fd["Jl"], fd["Jr"]
+            scale_ = max(1.0, float(np.max(np.abs(Jl))))
+            kc = [i for i in range(D) if np.max(np.abs(Jl[:, i] - Jr[:, i])) > 1e-6 * scale_]
+            if 2 <= len(kc) <= 6:
+                import itertools as _it
+
+                for choice in _it.product((0, 1), repeat=len(kc)):
+                    J = Jl.copy()
+                    for i, ch in zip(kc, choice):
+                        if ch:
+                            J[:, i] = Jr[:, i]
+                    v = logabsdet(J)
+                    if np.isfinite(v):
+                        cands.append(v)
+            elif len(kc) > 6:
+                info["skip"] = "more than 6 kinked coordinates"
+                return out, info
         if not cands:
             info["skip"] = "singular-fd"
             return out, info
